@@ -19,6 +19,32 @@ impl<T> Vec<T> {
     #[verifier::external_body]
     pub fn len(&self) -> (r: usize) ensures r == self@.len() { unimplemented!() }
 }
+/// `v[..n]`, `v[n..]`, `v[a..b]`: the sub-slices (std panics outside the bounds)
+pub struct VSlice<T> { pub v: Ghost<Seq<T>> }
+impl<T> VSlice<T> {
+    #[verifier::external_body]
+    pub fn iter<'a>(&'a self) -> (r: VIter<'a, T>) ensures r.r@ == refs(self.v@) { unimplemented!() }
+    #[verifier::external_body]
+    pub fn len(&self) -> (r: usize) ensures r == self.v@.len() { unimplemented!() }
+}
+impl<T> Index<core::ops::RangeTo<usize>> for Vec<T> {
+    type Output = VSlice<T>;
+    #[verifier::external_body]
+    fn index(&self, r: core::ops::RangeTo<usize>) -> (o: &VSlice<T>) ensures o.v@ == self@.subrange(0, r.end as int) { unimplemented!() }
+}
+impl<T> IndexSpecImpl<core::ops::RangeTo<usize>> for Vec<T> { open spec fn index_req(&self, r: &core::ops::RangeTo<usize>) -> bool { r.end <= self@.len() } }
+impl<T> Index<core::ops::RangeFrom<usize>> for Vec<T> {
+    type Output = VSlice<T>;
+    #[verifier::external_body]
+    fn index(&self, r: core::ops::RangeFrom<usize>) -> (o: &VSlice<T>) ensures o.v@ == self@.subrange(r.start as int, self@.len() as int) { unimplemented!() }
+}
+impl<T> IndexSpecImpl<core::ops::RangeFrom<usize>> for Vec<T> { open spec fn index_req(&self, r: &core::ops::RangeFrom<usize>) -> bool { r.start <= self@.len() } }
+impl<T> Index<core::ops::Range<usize>> for Vec<T> {
+    type Output = VSlice<T>;
+    #[verifier::external_body]
+    fn index(&self, r: core::ops::Range<usize>) -> (o: &VSlice<T>) ensures o.v@ == self@.subrange(r.start as int, r.end as int) { unimplemented!() }
+}
+impl<T> IndexSpecImpl<core::ops::Range<usize>> for Vec<T> { open spec fn index_req(&self, r: &core::ops::Range<usize>) -> bool { r.start <= r.end <= self@.len() } }
 impl<T: Clone> Clone for Vec<T> {
     /// (element-wise clone of reference-counted values: the same elements)
     #[verifier::external_body]
@@ -55,6 +81,26 @@ impl<K, V> HashMap<K, V> {
     /// `HashMap::from_iter(pairs)`
     #[verifier::external_body]
     pub fn from_iter(it: HmPairs<K, V>) -> (r: Self) ensures r@ == it.m@ { unimplemented!() }
+}
+/// `map.values()` and the sum of a number computed from each value
+pub struct HmValues<'a, K, V> { pub m: Ghost<Map<K, V>>, pub p: core::marker::PhantomData<&'a K> }
+pub struct HmNums { pub total: Ghost<nat> }
+/// the sum of the bucket lengths of a finite table
+pub uninterp spec fn total_len<K, X>(m: Map<K, Vec<X>>) -> nat;
+impl<K, V> HashMap<K, V> {
+    #[verifier::external_body]
+    pub fn values<'a>(&'a self) -> (r: HmValues<'a, K, V>) ensures r.m@ == self@ { unimplemented!() }
+}
+impl<'a, K: 'a, X: 'a> HmValues<'a, K, Vec<X>> {
+    #[verifier::external_body]
+    pub fn map<F: Fn(&'a Vec<X>) -> usize>(self, f: F) -> (r: HmNums)
+        requires forall|v: &'a Vec<X>| #[trigger] call_requires(f, (v,)),
+        ensures (forall|v: &'a Vec<X>, o: usize| #[trigger] call_ensures(f, (v,), o) ==> o == v@.len()) ==> r.total@ == total_len(self.m@),
+    { unimplemented!() }
+}
+impl HmNums {
+    #[verifier::external_body]
+    pub fn sum(self) -> (r: usize) ensures r == self.total@ { unimplemented!() }
 }
 impl<'a, K: 'a, V: 'a> HmIter<'a, K, V> {
     /// Iterator::filter: the entries the predicate answers true for
